@@ -120,7 +120,11 @@ Definition auction_unblinders (i : p1_in) : list N :=
   | _ => []
   end.
 
+Definition in_decoder_domain (i : p1_in) : bool :=
+  match p1_proposal i with Some p => negb (lib_nil_deneb p) | None => true end.
+
 Definition P_propose (i : p1_in) (panicked : bool) (tr : p1_trace) : bool :=
+  negb (in_decoder_domain i) ||        (* outside what the decoders can deliver: nothing claimed *)
   negb panicked
   (* the graffiti handed to the node is 32 bytes; a failing graffiti provider means no graffiti *)
   && (lenN (t_graffiti tr) =? 32)
